@@ -238,7 +238,7 @@ def launch(pj, c, res, i, timeout=90):
         if c.get('head') is not None:
             # the reader of redo's messages goes away part-way (`redo ... 2>&1 | head`): every later message meets a broken pipe
             argv = ['sh', '-c', '"$@" 2>&1 | head -n %d >/dev/null' % c['head'], 'sh'] + list(argv)
-        res[i] = run_cmd(argv, pj.top, env=env, timeout=timeout, pass_fds=fds, preexec=None)
+        res[i] = run_cmd(argv, pj.top, env=env, timeout=timeout, pass_fds=fds, preexec=None, stutter=c.get('stutter'))
     finally:
         if js:
             js.close()
@@ -308,6 +308,9 @@ def case(item):
                 if delays:
                     extra['REDO_VERIF_DELAY'] = delays
                 c = dict(argv=argv, delay=rnd.random() * 0.06, extra=extra)
+                if seed % 5 == 2:
+                    c['stutter'] = seed + i      # redo processes of this invocation are stopped and continued at random
+                    sets['descheduling'] = ['random-stops']
                 if shared is not None:
                     c['shared_js'] = shared
                 elif j > 1:
@@ -455,7 +458,7 @@ def dispatch(item):
 
 RULE = ('contention rounds on one project (6-12 shared leaves under 2-4 groups, a checksummed target below two consumers): 2-8 top-level '
         'invocations (redo-ifchange / redo, overlapping target sets, -j1..4, own, inherited and shared jobserver (all invocations of a round on one token pipe, so that tokens are stolen)) released within 60 ms, then an edit below '
-        'the checksummed target and a second contention phase (redo-unlocked path); seeded script durations; delay hooks after child exit / '
+        'the checksummed target and a second contention phase (redo-unlocked path); seeded script durations; in a fifth of the rounds redo processes are stopped and continued at random; delay hooks after child exit / '
         'before recording, after lock / before refresh, after commit, before the blocking lock wait; abort modes: a script failing in one '
         'invocation, an invocation that meets a hard error (dependency cycle) while its job runs, SIGTERM / SIGKILL to the whole session of '
         'one invocation part-way, the reader of one invocation\'s messages going away after 0-3 lines (`2>&1 | head`, with and without --no-log). Monitors: (1) unified trace: a second S of a target while an earlier script of it later proves to be alive; '
